@@ -18,7 +18,8 @@ configuration path; age mode as repaired by `fixes/C26-age-mode.diff`, now in /r
 | "deleted ONLY IF …", at the level of whole schedules (many cycles, repeated passes after kills) | `valid_share_survives_every_schedule`; disabled: `disabled_never_deletes_any_schedule` |
 | cutoff date = midnight UTC of the configured day; duration strings | C48 (`parse_date`, `parse_duration`); here: the parsed values reach the crawler unchanged (`cutoff_and_override_reach_the_crawler`), time zones: correspondence + monitor only |
 | hypothesis of the full theorem: ≥ 1 lease, pairwise distinct cancel secrets (`WellFormedLeases`) | what the code does outside it: `shared_cancel_secret_counterexample`, `shared_cancel_secret_raises_counterexample`, `zero_lease_counterexample` (three open known findings) |
-| byte counters / histogram of the status page; on-disk rewriting of lease records by `cancel_lease` | not covered here (record layout: C29; `cancel_lease` is modelled as "remove every lease with that secret", tied by comparing the leases left on disk) |
+| the expirer's own state in the crawler state file (cycle-to-date lease-age histogram: dict in memory, sorted list in the JSON file, dict again in a crawler created inside a cycle - C27's "subclass state" row, repair e6c3ed8) | `histogram_survives_state_file` (same items, distinct keys: the same dict), tied by the `hist` driver command against the real add_lease_age_to_histogram / save_state / new LeaseCheckingCrawler |
+| byte counters of the status page; on-disk rewriting of lease records by `cancel_lease` | not covered here (record layout: C29; `cancel_lease` is modelled as "remove every lease with that secret", tied by comparing the leases left on disk) |
 -/
 namespace Tahoe.C26
 open Tahoe.Storage.Expire
@@ -180,6 +181,24 @@ open Tahoe.Storage.GcCycle in
 theorem disabled_never_deletes_any_schedule (cfg : Config) (hoff : cfg.enabled = false) (np : Nat)
     (gs : List GEvent) (w0 : World) : (gcRun cfg np Tahoe.Storage.Crawler.init w0 gs).2.1 = w0 :=
   gcRun_disabled cfg hoff np gs _ w0
+
+/-! ### The expirer's state in the state file -/
+
+/-- A lease-age histogram (a dict with distinct keys) written to the state file inside a cycle
+    (`convert_lease_age_histogram`: list sorted by key) and restored by `add_initial_state` of a new
+    crawler is the same dict: the same `(key, count)` items, keys still distinct - so
+    `add_lease_age_to_histogram` of the restarted crawler continues the counts of the cycle. -/
+theorem histogram_survives_state_file (h : Hist) (hn : (h.map (·.1)).Nodup) :
+    (∀ x, x ∈ histFromJson (histToJson h) ↔ x ∈ h) ∧ ((histFromJson (histToJson h)).map (·.1)).Nodup := by
+  rw [hist_reload h hn]
+  exact ⟨fun x => mem_histSorted h x, nodup_histSorted h hn⟩
+
+example :
+    let h : Hist := [5, 86400, -5, -86401, 90000].foldl histAdd []
+    h = [((0, 86400), 2), ((86400, 172800), 2), ((-86400, 0), 1)] ∧
+    histToJson h = [(-86400, 0, 1), (0, 86400, 2), (86400, 172800, 2)] ∧
+    histLookup (histAdd (histFromJson (histToJson h)) 100) (0, 86400) = 3 ∧ (h.map (·.1)).Nodup := by
+  decide
 
 /-! ### From `tahoe.cfg` to the crawler (`get_anonymous_storage_server`, `LeaseCheckingCrawler.__init__`) -/
 
